@@ -4,6 +4,7 @@ package wproto
 
 import (
 	"bufio"
+	"encoding/hex"
 	"encoding/json"
 	"fmt"
 	"io"
@@ -12,6 +13,7 @@ import (
 	"strings"
 	"sync"
 	"time"
+	"unicode/utf8"
 )
 
 // Req is one request. Op selects the entry points to exercise.
@@ -27,6 +29,60 @@ type Req struct {
 	Lo      uint              `json:"lo,omitempty"`
 	Hi      uint              `json:"hi,omitempty"`
 	Dir     string            `json:"dir,omitempty"` // scratch working directory for expansions
+}
+
+// JSON cannot carry strings that are not valid UTF-8 (encoding/json replaces
+// the offending bytes): such a source or pattern travels, and is recorded in
+// replay files, as hexadecimal in src_hex / pats_hex instead.
+type reqPlain Req
+
+type reqWire struct {
+	reqPlain
+	SrcHex  string   `json:"src_hex,omitempty"`
+	PatsHex []string `json:"pats_hex,omitempty"`
+}
+
+func (r Req) MarshalJSON() ([]byte, error) {
+	w := reqWire{reqPlain: reqPlain(r)}
+	if !utf8.ValidString(r.Src) {
+		w.SrcHex, w.Src = hex.EncodeToString([]byte(r.Src)), ""
+	}
+	for _, p := range r.Pats {
+		if !utf8.ValidString(p) {
+			w.Pats = nil
+			for _, q := range r.Pats {
+				w.PatsHex = append(w.PatsHex, hex.EncodeToString([]byte(q)))
+			}
+			break
+		}
+	}
+	return json.Marshal(w)
+}
+
+func (r *Req) UnmarshalJSON(b []byte) error {
+	var w reqWire
+	if err := json.Unmarshal(b, &w); err != nil {
+		return err
+	}
+	*r = Req(w.reqPlain)
+	if w.SrcHex != "" {
+		x, err := hex.DecodeString(w.SrcHex)
+		if err != nil {
+			return err
+		}
+		r.Src = string(x)
+	}
+	if w.PatsHex != nil {
+		r.Pats = nil
+		for _, h := range w.PatsHex {
+			x, err := hex.DecodeString(h)
+			if err != nil {
+				return err
+			}
+			r.Pats = append(r.Pats, string(x))
+		}
+	}
+	return nil
 }
 
 // Resp is the answer.
